@@ -5,9 +5,13 @@ package zzverifpositive
 
 import (
 	"encoding/csv"
+	stdhtml "html"
 	"io"
 	"os"
+	"strings"
 	"sync"
+
+	xhtml "golang.org/x/net/html"
 )
 
 var counter int
@@ -185,4 +189,26 @@ func SilentLimit(r io.Reader, max int64) ([]byte, error) {
 // AssemblesSameByteTwice violates R7.10 BYTE-ASSEMBLY: the middle byte is used twice, the last one never.
 func AssemblesSameByteTwice(data []byte, i int) uint32 {
 	return uint32(data[i])<<16 | uint32(data[i+1])<<8 | uint32(data[i+1])
+}
+
+type partRef struct{ Href string }
+
+// TrimsCutSet violates R18.9 PATH-TRIM-CUTSET: "./" is a set of characters for TrimLeft, "../x" loses its dots too.
+func TrimsCutSet(p partRef) string {
+	return strings.TrimLeft(p.Href, "./")
+}
+
+// DecodesNodeTextAgain violates R19.13 NO-DOUBLE-DECODE.
+func DecodesNodeTextAgain(n *xhtml.Node) string {
+	return stdhtml.UnescapeString(n.Data)
+}
+
+// StopsOneShort violates R14.10 SHORT-LOOP: the last element is never looked at.
+func StopsOneShort(path []string, want string) bool {
+	for i := 0; i < len(path)-1; i++ {
+		if path[i] == want {
+			return true
+		}
+	}
+	return false
 }
